@@ -34,8 +34,17 @@ func treesFor(c *Ctx, withFindings bool, f func(t []*Ins)) {
 	}
 	enumTrees(depth, f)
 	for i := 0; i < c.N; i++ {
+		if i%4 == 3 {
+			// Stop, Fatal, panic and recover inside functions called back by native code
+			f(genCallbackTree(c.Rng, withFindings && i%8 == 7))
+			continue
+		}
 		f(genTree(c.Rng, withFindings))
 	}
+}
+
+func hasCallback(t []*Ins) bool {
+	return treeHas(t, func(in *Ins) bool { return in.Tok == tCallback })
 }
 
 func hasDeferredNativePanic(t []*Ins) bool {
@@ -70,6 +79,7 @@ func (hT) R(v any) {
 func (hT) Stop(e int)  { fmt.Printf("S%d ", e); os.Exit(3) }
 func (hT) Fatal(v int) { fmt.Printf("F%d ", v); os.Exit(4) }
 func (hT) P(v int)     { panic(fmt.Sprintf("p%d", v)) }
+func (hT) Call(f func()) { f() }
 
 `
 
@@ -217,6 +227,12 @@ func knownFindingReproducers(c *Ctx) {
 			c.Fail("runtime-fault-no-position", map[string]string{"fault": f.name, "source": src, "path": pe.Path(), "position": pe.Position().String(), "want_line": "4"})
 		}
 	}
+	// a panic that leaves a function called back by native code: Go unwinds through the native frame, the caller recovers it
+	tc := []*Ins{{Tok: tDeferFn, Body: []*Ins{{Tok: tRecover}}}, {Tok: tCallback, Body: []*Ins{{Tok: tPanic, N: 7}}}}
+	c.Count("evaluations")
+	if res := runProgramTree(programSource(tc)); !bytes.Equal(res.noLines, []byte{2, 1, 7, 10}) {
+		c.Fail("callback-panic-is-fatal", map[string]string{"tree": hx(encTree(tc, false)), "source": programSource(tc), "got": hx(res.noLines), "want": "0201070a", "host_panic": res.hostMsg})
+	}
 	// a deferred native function that panics: Go adds the panic to the chain (and it can be recovered)
 	t := []*Ins{{Tok: tDeferNat, K: 4, N: 1}}
 	c.Count("evaluations")
@@ -313,7 +329,7 @@ func registerFrames() {
 				}
 				got := "ok:" + hx(f.res.enc)
 				if got != want[2*i+j] {
-					c.Fail(classify(t, flags[2*i+j], got == model[2*i+j]), map[string]string{"tree": hx(encTree(t, false)), "flavour": f.name, "source": f.src,
+					c.Fail(classifyM(t, flags[2*i+j], got == model[2*i+j], model[2*i+j]), map[string]string{"tree": hx(encTree(t, false)), "flavour": f.name, "source": f.src,
 						"vm": got, "go_spec": want[2*i+j], "model_of_todays_vm": model[2*i+j], "host_panic": f.res.hostMsg})
 					continue
 				}
@@ -370,7 +386,7 @@ func registerFrames() {
 			}
 			vm := all[sampleIdx[k]][0].res
 			if vm.buildErr == "" && "ok:"+hx(vm.noLines) != gc {
-				c.Fail(classify(t, flags[2*sampleIdx[k]], "ok:"+hx(vm.enc) == model[2*sampleIdx[k]]), map[string]string{"tree": hx(encTree(t, false)), "flavour": "program", "source": all[sampleIdx[k]][0].src,
+				c.Fail(classifyM(t, flags[2*sampleIdx[k]], "ok:"+hx(vm.enc) == model[2*sampleIdx[k]], model[2*sampleIdx[k]]), map[string]string{"tree": hx(encTree(t, false)), "flavour": "program", "source": all[sampleIdx[k]][0].src,
 					"vm": "ok:" + hx(vm.noLines), "gc": gc, "host_panic": vm.hostMsg})
 			}
 		}
@@ -414,6 +430,19 @@ func classify(t []*Ins, flags [2]bool, equalsModel bool) string {
 		}
 	}
 	return "trace-or-outcome-differs-from-go"
+}
+
+// classifyM: as classify; modelAns is the answer of the model of today's
+// machine (ok:<hex of trace and outcome>). A panic that left a function
+// called back by native code (outcome 16 of the model) is the known finding
+// callback-panic-is-fatal, again only when the VM does what the model does.
+func classifyM(t []*Ins, flags [2]bool, equalsModel bool, modelAns string) string {
+	if equalsModel && hasCallback(t) && strings.HasPrefix(modelAns, "ok:") {
+		if b, err := hex.DecodeString(modelAns[3:]); err == nil && outcomeCode(b) == 16 {
+			return "callback-panic-is-fatal"
+		}
+	}
+	return classify(t, flags, equalsModel)
 }
 
 func init() {
